@@ -22,7 +22,7 @@ RULE = (
     "FromDatetime/FromTimedelta; Timestamp nanos in [0,1e9), Duration same-sign; decode gives the identical "
     "instant / span; to_dict string is RFC 3339 UTC 'Z' / decimal seconds 's' with 0/3/6/9 digits, equals the "
     "reference ToJsonString up to trailing zeros, is accepted by the reference parser and by from_dict; from_dict gives the identical value for every legal spelling with 0-9 fractional digits. "
-    "Non-trivial = not a whole second, or negative, or |us|>2**53, or non-UTC offset."
+    "The process runs under a drawn TZ (POSIX strings incl. half-hour offsets and DST rules) for a part of the cases. Non-trivial = not a whole second, or negative, or |us|>2**53, or non-UTC offset."
 )
 ASSUMPTIONS = ["naive datetimes are outside the domain (README documents aware datetimes)",
                "an offset is applied only when the local wall time stays within datetime.min..max"]
@@ -211,6 +211,26 @@ def targets(ctx):
         return parts
 
     def ev(case):
+        # the time zone of the PROCESS must not matter (aware datetimes only): a drawn POSIX TZ is installed for the case
+        import os
+        import time
+
+        tzenv = case.get("tzenv")
+        old = os.environ.get("TZ")
+        if tzenv:
+            os.environ["TZ"] = tzenv
+            time.tzset()
+        try:
+            return ev_(case)
+        finally:
+            if tzenv:
+                if old is None:
+                    os.environ.pop("TZ", None)
+                else:
+                    os.environ["TZ"] = old
+                time.tzset()
+
+    def ev_(case):
         kind, us, off, pos = case["kind"], case["us"], case.get("off", 0), case["pos"]
         if kind == "ts" and off:
             local = us + off * 60 * 10**6
@@ -219,12 +239,13 @@ def targets(ctx):
         found = clauses(kind, us, off, pos)
         vc = vclass(kind, us, off)
         fails = [Failure(cl, f"{cl}|{kind}|{pos}|{'+'.join(vc[1:]) or 'plain'}", f"case={case!r} :: {d}") for cl, d in found]
-        return Eval(fails, nontrivial=len(vc) > 1, labels=[f"pos:{pos}"] + [f"vc:{x}" for x in vc])
+        return Eval(fails, nontrivial=len(vc) > 1, labels=[f"pos:{pos}", f"process_tz:{case.get('tzenv') or 'as_is'}"] + [f"vc:{x}" for x in vc])
 
     @st.composite
     def strat(draw):
         kind = draw(st.sampled_from(["ts", "dur"]))
         pos = draw(st.sampled_from(list(POS)))
+        tzenv = draw(st.sampled_from([None, None, None, "UTC0", "IST-5:30", "NST3:30NDT,M3.2.0,M11.1.0", "XYZ12", "CET-1CEST,M3.5.0,M10.5.0/3"]))
         if kind == "ts":
             us = draw(ts_us_strategy())
             off = draw(st.one_of(st.just(0), st.sampled_from([60, -60, 330, -840, 840, 1, -1, 345]), st.integers(-840, 840)))
@@ -232,8 +253,8 @@ def targets(ctx):
                 # an instant whose LOCAL wall clock reads a special moment (the epoch, a day / year boundary)
                 local = draw(st.sampled_from([0, 0, 1, -1, 86_400_000_000, -86_400_000_000, 1_000_000, 946_684_800_000_000]))
                 us = local - off * 60 * 10**6
-            return {"kind": kind, "us": us, "off": off, "pos": pos}
-        return {"kind": kind, "us": draw(dur_us_strategy()), "pos": pos}
+            return {"kind": kind, "us": us, "off": off, "pos": pos, **({"tzenv": tzenv} if tzenv else {})}
+        return {"kind": kind, "us": draw(dur_us_strategy()), "pos": pos, **({"tzenv": tzenv} if tzenv else {})}
 
     from . import _seq
 
